@@ -129,7 +129,7 @@ theorem nilAttr_noType (b : Bool) : ∀ kv ∈ nilAttr b, kv.1 ≠ xsiType := by
     subst hkv; decide
 
 theorem parseNode_primN (e : BEnv) (Γ : Ctx) (pcfg : ParserConfig) {m : XmlMeta} {var : XmlVar}
-    (hw : m.wildcards = []) {t : PT} (hty : var.types = [.prim t]) (M : NsMap) {y : Val}
+    (hw : m.mixedContent = false) {t : PT} (hty : var.types = [.prim t]) (M : NsMap) {y : Val}
     (hy : PrimItem e var t y)
     (h1 : y = .none → var.default = .none ∨ (var.default = .listFactory ∧ var.tokens = false))
     (h2 : ∀ p, y = .prim p → var.tokens = false ∧ (p = .str [] →
@@ -142,7 +142,7 @@ theorem parseNode_primN (e : BEnv) (Γ : Ctx) (pcfg : ParserConfig) {m : XmlMeta
     simp only [primItemTree]
     rw [parseNode]
     rcases h1 rfl with hd | ⟨hd, htk⟩ <;>
-      simp [parseVar, hd, hn, primItemNil, XmlMeta.mixedContent, hw, bind, Except.bind, pure, Except.pure, *]
+      simp [parseVar, hd, hn, primItemNil, hw, bind, Except.bind, pure, Except.pure, *]
   | prim p hpt =>
     obtain ⟨htok, hemp⟩ := h2 p rfl
     simp only [primItemTree]
@@ -154,27 +154,26 @@ theorem parseNode_primN (e : BEnv) (Γ : Ctx) (pcfg : ParserConfig) {m : XmlMeta
       have ht : t = .str := by cases t <;> simp [primHasType] at hpt <;> rfl
       subst ht
       rcases hd with hd | hd | hd <;>
-        simp [optText, serPrim, parseVar, hd, htok, hty, primItemNil, XmlMeta.mixedContent, hw, bind,
+        simp [optText, serPrim, parseVar, hd, htok, hty, primItemNil, hw, bind,
           Except.bind, pure, Except.pure]
     · have : optText (serPrim p) = some (serPrim p) := by simp [optText, hs]
       rw [this, parseVar_serPrim e pcfg var.toVarCore p t M htok hty hpt]
-      simp [XmlMeta.mixedContent, hw, bind, Except.bind, pure, Except.pure]
+      simp [hw, bind, Except.bind, pure, Except.pure]
   | toks ys htok hys =>
     simp only [primItemTree]
     rw [parseNode]
     cases ys with
     | nil =>
-      simp [optText, joinTok, tokStrs, List.intercalate, parseVar, h3 rfl, htok, XmlMeta.mixedContent,
-        hw, bind, Except.bind, pure, Except.pure]
+      simp [optText, joinTok, tokStrs, List.intercalate, parseVar, h3 rfl, htok, hw, bind, Except.bind, pure, Except.pure]
     | cons a l =>
       have : optText (joinTok (a :: l)) = some (joinTok (a :: l)) := by
         simp [optText, joinTok_ne_nil hys]
       rw [this, parseVar_toks e pcfg var.toVarCore M htok hty hys]
-      simp [XmlMeta.mixedContent, hw, bind, Except.bind, pure, Except.pure]
+      simp [hw, bind, Except.bind, pure, Except.pure]
 
 /-- a primitive-like item: generator + writer + parser -/
 theorem itemP_prim (e : BEnv) (Γ : Ctx) (pcfg : ParserConfig) (M : NsMap) {m : XmlMeta} {var : XmlVar}
-    (hf : ElemFactsN m var) (hw : m.wildcards = []) (hcl : var.clazz = none) {t : PT}
+    (hf : ElemFactsN m var) (hw : m.mixedContent = false) (hcl : var.clazz = none) {t : PT}
     (hty : var.types = [.prim t]) {y : Val} (hy : PrimItem e var t y)
     (h1 : y = .none → var.default = .none ∨ (var.default = .listFactory ∧ var.tokens = false))
     (h2 : ∀ p, y = .prim p → var.tokens = false ∧ (p = .str [] →
